@@ -75,6 +75,8 @@ pub fn gen(idx: u64, rng: &mut Rng, tier: Tier) -> Scn {
     // seeded random strings
     let alphabet: Vec<&str> = vec![
         "a", "b", ".", "..", "/", "//", "\\", ":", "%2e", "%2f", "%5c", "%00", "~", " ", "?", "#", "file:", "http:", "x:", "@", "{JAIL}", "l1", "dest", "c0", "é", "\t", "..;", "...", "C:", "-",
+        // backslash-separated dot segments (one path component on Linux), siblings whose name starts like the destination
+        "\\..", "..\\", "a\\..\\..\\", "\\..\\..\\name", "x://h/", "../dest-old/victim", "../dest.log", "dest-old", "x:..\\..\\",
     ];
     let n = 24;
     let mut locations = Vec::new();
@@ -158,6 +160,10 @@ pub fn run(scn: &Scn, ctx: &Ctx, scratch: &Path) {
     std::fs::write(root.join("name"), b"canary-name").unwrap();
     std::fs::write(root.join("abs"), b"canary-abs0").unwrap();
     std::fs::create_dir_all(p.join("dest")).unwrap();
+    // siblings whose names START like the destination's (a containment check on strings instead of paths)
+    std::fs::create_dir_all(p.join("dest-old")).unwrap();
+    std::fs::write(p.join("dest-old").join("victim"), b"canary-sibling").unwrap();
+    std::fs::write(p.join("dest.log"), b"canary-log").unwrap();
     dest_in_jail = dest_in_jail.join("dest");
 
     let mut fds = [0i32; 2];
